@@ -304,6 +304,9 @@ def foreign_events(ctx):
     for spec_, s2k_ in ((0, bytes([0, 8])), (1, bytes([1, 2]) + bytes(range(8))), (3, bytes([3, 10]) + bytes(range(8)) + b'\x60')):
         corpus.append(('foreign skesk s2k %d' % spec_, 3, b'\x04\x09' + s2k_))
         corpus.append(('foreign skesk s2k %d with an encrypted session key' % spec_, 3, b'\x04\x07' + s2k_ + bytes(range(17))))
+    # trust packets: their content is defined by the implementation that wrote them (5.10) - any length
+    for tb_ in (b'', b'\x05', b'\x00\x00', b'\x01\x02\x03', bytes(range(1, 7)), bytes(40)):
+        corpus.append(('foreign trust packet of %d octets' % len(tb_), 12, tb_))
     for last_ in (0, 1, 2, 255):
         corpus.append(('foreign one-pass flag %d' % last_, 4, b'\x03\x01\x0a\x16' + bytes(range(8)) + bytes([last_])))
     import zlib
